@@ -161,6 +161,14 @@ pub fn arb_quoted(realm: bool) -> BoxedStrategy<String> {
                 let b0: u8 = (bits & 1) << 7 | (bits & 2) << 5;
                 s.push_str("obMatJos2");
                 s.push_str(&b64(&[b0, 0, 0]));
+            } else if !realm && (sel & 3) == 2 && len >= 9 {
+                // the cookie header followed by something that is NOT a valid feature field
+                // (padding characters, URL-safe alphabet, spaces, too short, a two-unit non-ASCII sequence)
+                s.push_str("obMatJos2");
+                let bad = ["f//=", "==8A", "AA-_", "A A ", "AAA", "", "\u{c3}\u{a9}zz", "AAA\u{c3}\u{a9}", "~~~~", "AAA="][seed[0] as usize % 10];
+                if s.len() + bad.len() <= len {
+                    s.push_str(bad);
+                }
             }
             let mut i = 0usize;
             loop {
@@ -201,12 +209,76 @@ pub fn arb_port() -> BoxedStrategy<u16> {
     prop_oneof![Just(0u16), Just(1u16), Just(0xFFFFu16), Just(0x2112u16), any::<u16>(), any::<u16>()].boxed()
 }
 
+/// IPv6 addresses with structure a uniform generator never produces: IPv4-mapped, IPv4-compatible, NAT64,
+/// loopback, unspecified, link-local, multicast, 6to4, and the magic cookie / zero patterns in the XOR-ed part.
+pub fn special_v6(kind: u8, v4: [u8; 4], tail: [u8; 8]) -> [u8; 16] {
+    let mut a = [0u8; 16];
+    match kind % 12 {
+        0 => {
+            a[10] = 0xFF;
+            a[11] = 0xFF;
+            a[12..].copy_from_slice(&v4);
+        }
+        1 => a[12..].copy_from_slice(&v4),
+        2 => {
+            a[..4].copy_from_slice(&[0x00, 0x64, 0xff, 0x9b]);
+            a[12..].copy_from_slice(&v4);
+        }
+        3 => a[15] = 1,
+        4 => {}
+        5 => {
+            a[0] = 0xFE;
+            a[1] = 0x80;
+            a[8..].copy_from_slice(&tail);
+        }
+        6 => {
+            a[0] = 0xFF;
+            a[1] = 0x02;
+            a[15] = 1;
+        }
+        7 => {
+            a[0] = 0x20;
+            a[1] = 0x02;
+            a[2..6].copy_from_slice(&v4);
+            a[8..].copy_from_slice(&tail);
+        }
+        8 => {
+            // first four bytes equal to the magic cookie (XOR gives zero there)
+            a[..4].copy_from_slice(&[0x21, 0x12, 0xA4, 0x42]);
+            a[8..].copy_from_slice(&tail);
+        }
+        9 => {
+            a[0] = 0x20;
+            a[1] = 0x01;
+            a[2] = 0x0d;
+            a[3] = 0xb8;
+            a[8..].copy_from_slice(&tail);
+        }
+        10 => {
+            a[10] = 0xFF;
+            a[11] = 0xFF;
+            a[12..].copy_from_slice(&[0x21, 0x12, 0xA4, 0x42]);
+        }
+        _ => {
+            a[..8].copy_from_slice(&tail);
+            a[12..].copy_from_slice(&v4);
+        }
+    }
+    a
+}
+
+pub fn special_v4(kind: u8) -> [u8; 4] {
+    [[0, 0, 0, 0], [127, 0, 0, 1], [255, 255, 255, 255], [224, 0, 0, 1], [0x21, 0x12, 0xA4, 0x42], [10, 0, 0, 1], [192, 0, 2, 1], [169, 254, 1, 1]][kind as usize % 8]
+}
+
 pub fn arb_addr() -> BoxedStrategy<RAddr> {
     prop_oneof![
-        (any::<[u8; 4]>(), arb_port()).prop_map(|(ip, p)| RAddr::V4(ip, p)),
-        (any::<[u8; 16]>(), arb_port()).prop_map(|(ip, p)| RAddr::V6(ip, p)),
-        Just(RAddr::V4([0; 4], 0)),
-        Just(RAddr::V6([0xFF; 16], 0xFFFF)),
+        4 => (any::<[u8; 4]>(), arb_port()).prop_map(|(ip, p)| RAddr::V4(ip, p)),
+        4 => (any::<[u8; 16]>(), arb_port()).prop_map(|(ip, p)| RAddr::V6(ip, p)),
+        3 => (any::<u8>(), any::<[u8; 4]>(), any::<[u8; 8]>(), arb_port()).prop_map(|(k, v4, t, p)| RAddr::V6(special_v6(k, v4, t), p)),
+        1 => (any::<u8>(), arb_port()).prop_map(|(k, p)| RAddr::V4(special_v4(k), p)),
+        1 => Just(RAddr::V4([0; 4], 0)),
+        1 => Just(RAddr::V6([0xFF; 16], 0xFFFF)),
     ]
     .boxed()
 }
@@ -373,10 +445,43 @@ pub fn arb_plain_attr(o: GenOpts) -> BoxedStrategy<RAttr> {
     proptest::strategy::Union::new(v).boxed()
 }
 
+/// (input fragment, OpaqueString-enforced form): non-ASCII spaces, decomposed sequences and NFC singletons.
+pub const MAPPED: [(&str, &str); 12] = [
+    ("\u{a0}", " "),
+    ("\u{1680}", " "),
+    ("\u{2003}", " "),
+    ("\u{202f}", " "),
+    ("\u{205f}", " "),
+    ("\u{3000}", " "),
+    ("e\u{301}", "\u{e9}"),
+    ("a\u{300}", "\u{e0}"),
+    ("o\u{308}", "\u{f6}"),
+    ("n\u{303}", "\u{f1}"),
+    ("A\u{30a}", "\u{c5}"),
+    ("\u{212b}", "\u{c5}"),
+];
+
+/// Text for passwords / realms / user names of integrity keys: stable text, sometimes with one mapped fragment inside.
+pub fn arb_keytext(limit: usize) -> BoxedStrategy<String> {
+    prop_oneof![
+        3 => arb_opaque(limit),
+        1 => (arb_text(1, limit.min(24), &[0, 1, 3]), 0usize..12).prop_map(|(s, k)| {
+            let mid = s.chars().count() / 2;
+            let mut out: String = s.chars().take(mid).collect();
+            out.push('x');
+            out.push_str(MAPPED[k].0);
+            out.push('y');
+            out.extend(s.chars().skip(mid));
+            out
+        }),
+    ]
+    .boxed()
+}
+
 pub fn arb_key() -> BoxedStrategy<KeySpec> {
     prop_oneof![
-        arb_opaque(40).prop_map(KeySpec::ShortTerm),
-        (arb_opaque(30), arb_quoted_simple(), arb_opaque(30), 1u16..=2).prop_map(|(user, realm, password, alg)| {
+        arb_keytext(40).prop_map(KeySpec::ShortTerm),
+        (arb_keytext(30), prop_oneof![arb_quoted_simple(), arb_keytext(30)], arb_keytext(30), 1u16..=2).prop_map(|(user, realm, password, alg)| {
             KeySpec::LongTerm {
                 user,
                 realm,
@@ -507,6 +612,14 @@ pub fn alphabet_self_test() -> Result<(), String> {
                 Ok(out) if out == s.as_str() => {}
                 other => bad.push(format!("alpha {} U+{:04X}: {:?}", alpha, c as u32, other.map(|x| x.to_string()))),
             }
+        }
+    }
+    for (input, want) in MAPPED.iter() {
+        let s = format!("x{}y", input);
+        let exp = format!("x{}y", want);
+        match OpaqueString::enforce(s.as_str()) {
+            Ok(out) if out == exp.as_str() && crate::refcodec::ref_opaque(&s) == exp => {}
+            other => bad.push(format!("mapped {:?}: precis {:?}, ref_opaque {:?}, table {:?}", input, other.map(|x| x.to_string()), crate::refcodec::ref_opaque(&s), exp)),
         }
     }
     if bad.is_empty() {
